@@ -205,6 +205,17 @@ CLAIMS = {
         "note": "Trusted base: python ast, the abstract transfer functions in domains.py/vn.py, numpy semantics of zeros/reshape/astype/comparison. Not decided: that the calibration block lies inside r < 1 (numeric), "
                 "reproducibility of numba's generator (numba seeds its own RNG from the same call). The error paths do not restore the RNG state (INFO).",
     },
+    "C19": {
+        "engine": "E3 term algebra + value numbering of one loop iteration",
+        "category": "other",
+        "technique": "static analysis: value numbering of one time-step of each of the five Bloch simulators and of the ab2rf peel step over a symbolic Cayley-Klein pair; extraction of the 2x2 coefficient matrix; the three unitarity identities M^H M = I closed by the canonical normal form (conjugation, rational exponents, cos^2 = 1 - sin^2, exp merging, denominator clearing)",
+        "text": "PARTIAL. Decides (for all RF, gradient and position values, by algebraic normalisation) that every per-sample state update in abrm, abrm_nd, abrm_hp, abrm_ptx and optcont.blochsim, the "
+                "statements after their time loops (rewinder, total phase), and the backward-recursion step of ab2rf are linear maps of (alpha, beta) with M^H M = I, that phase factors are exp(i*real), and "
+                "that every simulator starts from the identity rotation - hence |alpha|^2 + |beta|^2 = 1 at every position and the zero pulse without gradients is the identity.",
+        "design_ref": "DESIGN.md section 4 C19",
+        "note": "NOT decided: that hard-pulse simulation inverts the SLR design, composition of back-to-back waveforms, dzrf ripple relations. Regularisers eps are read as 0 and the isinf masks of abrm_ptx "
+                "(phi = 0 samples) are outside the generic case. Level 'other' overall; the unitarity obligations themselves are proved by normalisation.",
+    },
 }
 
 NOT_APPLICABLE = {p: PENDING for p in ["C%02d" % i for i in range(1, 21)]}
